@@ -107,6 +107,7 @@ deriving Repr, Inhabited, BEq, DecidableEq
 
 structure WalkX where
   inBody : Bool
+  done : Bool := false    -- the loop of `parseBodyElements` has ended (`Walk.done`)
   listStyle : Str         -- `currentListStyle`: set by a list that has a style name, kept otherwise
   acc : List ElemX
 deriving Repr, Inhabited
@@ -118,27 +119,53 @@ def listStyleAfter (attrs : List (Str × Str)) (cur : Str) : Str :=
   | none => cur
 
 mutual
-/-- `parseBodyElements` on one subtree (as `walkNode`, with style names) -/
+/-- `parseBodyElements` on one subtree (as `walkNode`, with style names). A list sets
+`currentListStyle` BEFORE `DecodeElement`, so the style stays set when the list is dropped
+because the decoder gave up inside it. -/
 def walkNodeX (defs : List StyleDef) : Node → WalkX → WalkX
   | .text _, w => w
   | .elem tag attrs kids, w =>
-    if tag == sOfficeText then
+    if w.done then w
+    else if tag == sOfficeText then
       { walkListX defs kids { w with inBody := true } with inBody := false }
     else if !w.inBody then walkListX defs kids w
     else if localName tag == sP then
-      { w with acc := w.acc ++ [⟨.para (processParagraph (.elem tag attrs kids)), attrOf attrs sStyleName, 0⟩] }
+      (match scanListX defs (.inline 0) kids w with
+       | some w' => { w' with done := true }
+       | none => { w with acc := w.acc ++ [⟨.para (processParagraph (.elem tag attrs kids)), attrOf attrs sStyleName, 0⟩] })
     else if localName tag == sH then
-      { w with acc := w.acc ++ [⟨.para (processHeading defs (.elem tag attrs kids)), attrOf attrs sStyleName, 0⟩] }
+      (match scanListX defs (.inline 0) kids w with
+       | some w' => { w' with done := true }
+       | none => { w with acc := w.acc ++ [⟨.para (processHeading defs (.elem tag attrs kids)), attrOf attrs sStyleName, 0⟩] })
     else if localName tag == sList then
       let st := listStyleAfter attrs w.listStyle
-      { w with listStyle := st,
-               acc := w.acc ++ (listElems (.elem tag attrs kids)).map fun e => ⟨e, st, 0⟩ }
+      (match scanListX defs .list kids { w with listStyle := st } with
+       | some w' => { w' with done := true }
+       | none => { w with listStyle := st,
+                          acc := w.acc ++ (listElems (.elem tag attrs kids)).map fun e => ⟨e, st, 0⟩ })
     else if localName tag == sTable then
-      { w with acc := w.acc ++ [⟨.table (parseTable (.elem tag attrs kids)), [], columnCount (.elem tag attrs kids)⟩] }
+      (match scanListX defs .table kids w with
+       | some w' => { w' with done := true }
+       | none => { w with acc := w.acc ++ [⟨.table (parseTable (.elem tag attrs kids)), [], columnCount (.elem tag attrs kids)⟩] })
     else walkListX defs kids w
 def walkListX (defs : List StyleDef) : List Node → WalkX → WalkX
   | [], w => w
   | n :: rest, w => walkListX defs rest (walkNodeX defs n w)
+/-- as `scanNode`: the decoder `ctx` reads a child; `some w'` = it gave up below the child and
+the walk has gone on over the rest of the paragraph it happened in -/
+def scanNodeX (defs : List StyleDef) (ctx : Ctx) : Node → WalkX → Option WalkX
+  | .text _, _ => none
+  | .elem tag _ kids, w =>
+    match descend ctx (localName tag) with
+    | .skip => none
+    | .fail => some (walkListX defs kids w)
+    | .into c => scanListX defs c kids w
+def scanListX (defs : List StyleDef) (ctx : Ctx) : List Node → WalkX → Option WalkX
+  | [], _ => none
+  | n :: rest, w =>
+    match scanNodeX defs ctx n w with
+    | some w' => some (if ctx.isInline then walkListX defs rest w' else w')
+    | none => scanListX defs ctx rest w
 end
 
 /-- what the views read of an `*odt.Reader` -/
